@@ -31,7 +31,7 @@ def divisors(n):
 
 
 def generate(rng, tier):
-    n = 500 if tier == "quick" else 8000
+    n = 500 if tier == "quick" else 30000
     for _ in range(n):
         shape = rng.choice(SHAPES)
         bins = [rng.choice(divisors(s)) for s in shape]
